@@ -170,7 +170,7 @@ Definition reweigh_transfer (keep : cand -> bool) (rew : V -> V -> V -> res V) (
 (* (w * surplus) / vote : two truncations *)
 Definition rew_wigm (w surp v : V) : res V := divv A (mulv A w surp) v.
 (* Scottish: V.muldiv(w, surplus, vote, round='down') : one truncation *)
-Definition rew_scot (w surp v : V) : res V := kmuldiv A w surp v RDown.
+Definition rew_scot (w surp v : V) : res V := kmuldiv A w surp v false.
 
 (* initial count: for b in ballots: b.topCand.vote += b.vote *)
 Definition initial_count (s : est) : est :=
